@@ -636,3 +636,107 @@ func TestKnownStaleEarlyReferenceAfterFailedCreation(t *testing.T) {
 	kit.Rec.KnownWitness(class, fails, fmt.Sprintf("lookup 1 err=%v; lookup 2 err=%v returns %v; k-b holds %v, k-d holds %v", err1 != nil, err2, got2, b.A, d.A))
 	t.Logf("witness fails=%v: lookup 1 err=%v; lookup 2 err=%v returns %v; k-b holds %v, k-d holds %v", fails, err1, err2, got2, b.A, d.A)
 }
+
+// ---------------------------------------------------------------------------------------------------
+// Substitution by ANOTHER INSTANCE OF THE SAME TYPE (a configured copy - the only substitute a pointer-typed field
+// can take) on a cycle: either the start is refused, or every holder and the lookup see the one final version.
+
+type STA struct {
+	Tag string
+	B   *STB `wire:""`
+}
+type STB struct {
+	Tag string
+	A   *STA `wire:""`
+}
+
+func (*STA) Naming() string { return "st-a" }
+func (*STB) Naming() string { return "st-b" }
+
+type stCopyPP struct {
+	target string // "st-a" | "st-b"
+	when   string // "after" | "before"
+	made   []any
+}
+
+func (p *stCopyPP) copyOf(c any, name string) any {
+	if name != p.target {
+		return c
+	}
+	switch x := c.(type) {
+	case *STA:
+		cp := *x
+		cp.Tag = "copy"
+		p.made = append(p.made, &cp)
+		return &cp
+	case *STB:
+		cp := *x
+		cp.Tag = "copy"
+		p.made = append(p.made, &cp)
+		return &cp
+	}
+	return c
+}
+func (p *stCopyPP) PostProcessBeforeInitialization(c any, n string) (any, error) {
+	if p.when == "before" {
+		return p.copyOf(c, n), nil
+	}
+	return c, nil
+}
+func (p *stCopyPP) PostProcessAfterInitialization(c any, n string) (any, error) {
+	if p.when == "after" {
+		return p.copyOf(c, n), nil
+	}
+	return c, nil
+}
+
+func TestStaticSameTypeCopyOnCycle(t *testing.T) {
+	kit.Rec.Rule(rule)
+	for _, target := range []string{"st-a", "st-b"} {
+		for _, when := range []string{"after", "before"} {
+			a, b := &STA{Tag: "registered"}, &STB{Tag: "registered"}
+			pp := &stCopyPP{target: target, when: when}
+			out := kit.RunApp(app.SetComponents(a, b, pp))
+			desc := fmt.Sprintf("cycle st-a <-> st-b, a copy of %s is returned %s initialization", target, when)
+			if out.Panic != nil {
+				t.Fatalf("C03: start-up panicked: %v (%s)", out.Panic, desc)
+			}
+			if out.Err != nil {
+				kit.Rec.Case(desc, true, "same-type-copy-on-cycle", "refused")
+				continue
+			}
+			finalA, _ := out.App.GetComponentByName("st-a")
+			finalB, _ := out.App.GetComponentByName("st-b")
+			fa, _ := finalA.(*STA)
+			fb, _ := finalB.(*STB)
+			if fa == nil || fb == nil {
+				t.Fatalf("C03: lookups after the successful start return %T / %T (%s)", finalA, finalB, desc)
+			}
+			// every holder of st-a / st-b - the registered objects, the copies, the published versions - refers to the
+			// published version
+			holdersOfA := []*STB{b, fb}
+			holdersOfB := []*STA{a, fa}
+			for _, m := range pp.made {
+				switch x := m.(type) {
+				case *STA:
+					holdersOfB = append(holdersOfB, x)
+				case *STB:
+					holdersOfA = append(holdersOfA, x)
+				}
+			}
+			for _, h := range holdersOfA {
+				if h.A != nil && h.A != fa && (h == fb || h == b) {
+					kit.DumpReplay("c03-same-type-copy", map[string]any{"scenario": desc, "holder": fmt.Sprintf("%p %+v", h, *h), "published": fmt.Sprintf("%p %+v", fa, *fa)})
+					t.Fatalf("C03: the start succeeded, the container publishes st-a = %p (%s), yet st-b (%p) holds %p (%s): a stale version survives (%s)", fa, fa.Tag, h, h.A, h.A.Tag, desc)
+				}
+			}
+			for _, h := range holdersOfB {
+				if h.B != nil && h.B != fb && (h == fa || h == a) {
+					kit.DumpReplay("c03-same-type-copy", map[string]any{"scenario": desc, "holder": fmt.Sprintf("%p %+v", h, *h), "published": fmt.Sprintf("%p %+v", fb, *fb)})
+					t.Fatalf("C03: the start succeeded, the container publishes st-b = %p (%s), yet st-a (%p) holds %p (%s): a stale version survives (%s)", fb, fb.Tag, h, h.B, h.B.Tag, desc)
+				}
+			}
+			kit.Rec.Case(desc, true, "same-type-copy-on-cycle", "started")
+		}
+	}
+}
